@@ -252,7 +252,7 @@ func checkC19(c *Ctx) {
 				return
 			}
 			n := ir.CallName(call)
-			if n == "(mcp.HTTPReqHandler).Handle" || n == "(*net/http.Client).Do" {
+			if n == "(mcp.HTTPReqHandler).Handle" || n == "(*net/http.Client).Do" || dispatchWrapper(c, call) != "" {
 				b.dispatch = append(b.dispatch, call)
 			}
 		})
@@ -264,6 +264,9 @@ func checkC19(c *Ctx) {
 		// ---- R-via-handler
 		for _, d := range b.dispatch {
 			n := ir.CallName(d)
+			if w := dispatchWrapper(c, d); w != "" {
+				n = w
+			}
 			if n == "(mcp.HTTPReqHandler).Handle" {
 				c.R.Hold("R-via-handler", bn+" dispatch", c.Pos(d.Pos()), "dispatched through the configured HTTPReqHandler")
 				continue
@@ -408,50 +411,80 @@ func c19SessionKept(c *Ctx, builders []*builder) {
 	}
 	isEmpty := func(v ssa.Value) bool { s, ok := ir.ConstStr(v); return ok && s == "" }
 	n := 0
+	// clear sites; a function that clears unconditionally (a `clear()` helper) hands the obligation to its call sites
+	type site struct {
+		fn *ssa.Function
+		in ssa.Instruction
+	}
+	var work []site
 	for _, fn := range c.P.LibFns {
 		if c.InitOnly()[fn] {
 			continue
 		}
-		var pd *flow.PostDom
-		cnt := 0
 		ir.EachInstr(fn, func(_ *ssa.BasicBlock, _ int, in ssa.Instruction) {
-			clear, deferred := false, false
 			switch x := in.(type) {
 			case *ssa.Store:
 				if fa, ok := x.Addr.(*ssa.FieldAddr); ok {
 					key, _, _, base := ir.FullField(fa)
-					clear = fields[key] && !ir.BaseAlloc(base) && isEmpty(x.Val)
+					if fields[key] && !ir.BaseAlloc(base) && isEmpty(x.Val) {
+						work = append(work, site{fn, in})
+					}
 				}
 			case ssa.CallInstruction:
 				if sc := ir.StaticCallee(x); sc != nil {
 					if i, ok := setters[sc]; ok && i < len(x.Common().Args) && isEmpty(x.Common().Args[i]) {
-						clear = true
-						_, deferred = x.(*ssa.Defer)
+						work = append(work, site{fn, in})
 					}
 				}
 			}
-			if !clear {
-				return
+		})
+	}
+	pds := map[*ssa.Function]*flow.PostDom{}
+	seenSite := map[ssa.Instruction]bool{}
+	cnts := map[*ssa.Function]int{}
+	for depth := 0; len(work) > 0 && depth < 4; depth++ {
+		var next []site
+		for _, st := range work {
+			if seenSite[st.in] {
+				continue
 			}
-			n++
-			cnt++
-			if pd == nil {
-				pd = flow.NewPostDom(fn)
+			seenSite[st.in] = true
+			fn, in := st.fn, st.in
+			if pds[fn] == nil {
+				pds[fn] = flow.NewPostDom(fn)
 			}
+			deps := pds[fn].ControlDepsTransitive(in.Block())
 			onStatus := false
-			for _, g := range pd.ControlDepsTransitive(in.Block()) {
+			for _, g := range deps {
 				if bin, ok := g.If.Cond.(*ssa.BinOp); ok && (fieldLoadNamed(bin.X, "StatusCode") || fieldLoadNamed(bin.Y, "StatusCode")) {
 					onStatus = true
 				}
 			}
+			_, deferred := in.(*ssa.Defer)
+			if !onStatus && !deferred && len(deps) == 0 {
+				// unconditional in this function: judged where the function is called
+				lifted := false
+				for _, e := range ir.Callers(c.G, fn) {
+					if e.Site != nil && c.P.IsLib(e.Caller.Func) && !c.InitOnly()[e.Caller.Func] {
+						next = append(next, site{e.Caller.Func, e.Site})
+						lifted = true
+					}
+				}
+				if lifted {
+					continue
+				}
+			}
+			n++
+			cnts[fn]++
 			how := "cleared"
 			if deferred {
 				how = "cleared by a deferred call, i.e. on every exit,"
 			}
-			c.R.Check(onStatus, "R-session-header", sprintf("session id cleared in %s#%d", fname(fn), cnt), c.Pos(in.Pos()),
+			c.R.Check(onStatus, "R-session-header", sprintf("session id cleared in %s#%d", fname(fn), cnts[fn]), c.Pos(in.Pos()),
 				"the clear is controlled by the status of a server answer",
 				sprintf("in %s the issued session id is %s on paths that no test of a server answer's status controls (a failed before-request function, a network error, a refused DELETE): the session lives on at the server, but every later request is sent without Mcp-Session-Id", fname(fn), how))
-		})
+		}
+		work = next
 	}
 	if n == 0 {
 		c.R.Hold("R-session-header", "the issued session id is never cleared", "", "")
@@ -883,6 +916,33 @@ func ownsContextParam(fn *ssa.Function) bool {
 		}
 	}
 	return false
+}
+
+// dispatchWrapper: the call goes to a library function that does nothing but hand its request parameter to
+// HTTPReqHandler.Handle / (*http.Client).Do and return the result (a single-block `dispatch` helper); the result is the
+// name of that inner call, "" otherwise.
+func dispatchWrapper(c *Ctx, call *ssa.Call) string {
+	sc := ir.StaticCallee(call)
+	if sc == nil || !c.P.IsLib(sc) || len(sc.Blocks) != 1 {
+		return ""
+	}
+	name := ""
+	for _, in := range sc.Blocks[0].Instrs {
+		ic, ok := in.(*ssa.Call)
+		if !ok {
+			continue
+		}
+		n := ir.CallName(ic)
+		if n != "(mcp.HTTPReqHandler).Handle" && n != "(*net/http.Client).Do" {
+			continue
+		}
+		for _, a := range ic.Call.Args {
+			if p, ok := a.(*ssa.Parameter); ok && isHTTPRequestPtr(p.Type()) {
+				name = n
+			}
+		}
+	}
+	return name
 }
 
 func hookCtxArg(h *ssa.Call) ssa.Value {
